@@ -419,6 +419,13 @@ class ExecComp(ExplicitComponent):
 
                 kwargs2[varname] = dct.copy()
 
+                # the component level shape_by_conn also applies to variables that have their own
+                # metadata (as the component level units and shape do), unless that metadata
+                # determines the shape
+                if shape_by_conn and vshape_by_conn is None and vshape is None and vval is None \
+                        and not vcopy_shape and not vcompute_shape:
+                    kwargs2[varname]['shape_by_conn'] = True
+
                 if units is not None:
                     if vunits is not None and vunits != units:
                         raise RuntimeError("%s: units of '%s' have been specified for "
